@@ -46,6 +46,7 @@ type caseT struct {
 	Init    []rowT `json:"init"`
 	Trigger bool   `json:"trigger"`
 	SelfRef bool   `json:"selfref"` // t.c is a self-referential foreign key to t.pk (no UNIQUE / CHECK)
+	Signal  bool   `json:"signal"`  // (with Trigger) the trigger body SIGNALs an error for rows with c = 77 before writing the audit row
 	FT      bool   `json:"ft"`      // t.b is VARCHAR(32) with a FULLTEXT index (hidden full-text tables); no UNIQUE
 	Stmt    stmtT  `json:"stmt"`
 	K       int    `json:"k"`  // fault position (0 = none)
@@ -150,7 +151,11 @@ func build(cs caseT) *world {
 		w.s.MustExec("INSERT INTO t VALUES " + strings.Join(ts, ", "))
 	}
 	if cs.Trigger {
-		w.s.MustExec("CREATE TRIGGER trg BEFORE INSERT ON t FOR EACH ROW INSERT INTO audit VALUES (NEW.pk)")
+		if cs.Signal {
+			w.s.MustExec("CREATE TRIGGER trg BEFORE INSERT ON t FOR EACH ROW BEGIN IF NEW.c = 77 THEN SIGNAL SQLSTATE '45000' SET MESSAGE_TEXT = 'no 77'; END IF; INSERT INTO audit VALUES (NEW.pk); END")
+		} else {
+			w.s.MustExec("CREATE TRIGGER trg BEFORE INSERT ON t FOR EACH ROW INSERT INTO audit VALUES (NEW.pk)")
+		}
 	}
 	return w
 }
@@ -273,8 +278,11 @@ func (c cond) holds(r rowT) bool {
 	return false
 }
 
+// one row-edit call of the statement: an accumulated edit (ins del upd), an error the row iterator handles itself
+// ("handled": the rejected insert of REPLACE / ON DUPLICATE KEY UPDATE) or an ignorable error ("ign": a duplicate row of
+// INSERT IGNORE)
 type edit struct {
-	kind     string // ins del upd
+	kind     string // ins del upd handled ign
 	old, new rowT
 }
 
@@ -292,13 +300,51 @@ func expected(before []rowT, st stmtT) []edit {
 		for _, r := range st.Rows {
 			for i, x := range cur {
 				if x.PK == r.PK {
-					out = append(out, edit{kind: "del", old: x})
+					out = append(out, edit{kind: "handled"}, edit{kind: "del", old: x})
 					cur = append(cur[:i:i], cur[i+1:]...)
 					break
 				}
 			}
 			out = append(out, edit{kind: "ins", new: r})
 			cur = append(cur, r)
+		}
+	case "insert-ignore":
+		for _, r := range st.Rows {
+			dup := false
+			for _, x := range cur {
+				if x.PK == r.PK || (x.B != nil && r.B != nil && *x.B == *r.B) {
+					dup = true
+				}
+			}
+			if dup {
+				out = append(out, edit{kind: "ign"})
+				continue
+			}
+			out = append(out, edit{kind: "ins", new: r})
+			cur = append(cur, r)
+		}
+	case "odku":
+		for _, r := range st.Rows {
+			found := -1
+			for i, x := range cur {
+				if x.PK == r.PK {
+					found = i
+				}
+			}
+			if found < 0 {
+				out = append(out, edit{kind: "ins", new: r})
+				cur = append(cur, r)
+				continue
+			}
+			out = append(out, edit{kind: "handled"})
+			n := cur[found]
+			var v int64
+			fmt.Sscan(st.Val, &v)
+			n.C = ip(v)
+			if n.text() != cur[found].text() {
+				out = append(out, edit{kind: "upd", old: cur[found], new: n})
+				cur[found] = n
+			}
 		}
 	case "delete":
 		c := parseCond(st.Where)
@@ -377,6 +423,9 @@ func applyEdits(before []rowT, es []edit) []rowT {
 func violates(before []rowT, es []edit, selfRef, ft bool) (bool, int) {
 	cur := append([]rowT(nil), before...)
 	for i, e := range es {
+		if e.kind == "handled" || e.kind == "ign" {
+			continue
+		}
 		if e.kind == "del" {
 			cur = applyEdits(cur, []edit{e})
 			continue
@@ -413,6 +462,16 @@ func coqRowsT(rs []rowT) string {
 	return lib.CoqListOf(rs, coqRowT)
 }
 func coqEdit(e edit) string {
+	switch e.kind {
+	case "handled":
+		return "KHandled"
+	case "ign":
+		return "KIgn"
+	}
+	return "(KGood " + coqEdit1(e) + ")"
+}
+
+func coqEdit1(e edit) string {
 	switch e.kind {
 	case "ins":
 		return "(EIns " + coqRowT(e.new) + ")"
@@ -559,10 +618,11 @@ func gen(r *lib.RNG) caseT {
 		}
 		return cs
 	}
-	switch k := r.Intn(10); {
+	switch k := r.Intn(12); {
 	case k < 5: // insert, possibly with a trigger
 		st.Kind = "insert"
 		cs.Trigger = r.Chance(1, 3)
+		cs.Signal = cs.Trigger && r.Chance(1, 2)
 		m := r.Range(1, 4)
 		next := int64(20)
 		for i := 0; i < m; i++ {
@@ -581,6 +641,9 @@ func gen(r *lib.RNG) caseT {
 		if r.Chance(2, 3) {
 			st.Bad = r.Range(1, m)
 			st.How = lib.Pick(r, []string{"dup-pk", "dup-pk-in-stmt", "dup-unique", "check", "not-null", "conversion"})
+			if cs.Signal && r.Chance(2, 3) {
+				st.How = "signal"
+			}
 			b := st.Rows[st.Bad-1]
 			switch st.How {
 			case "dup-pk":
@@ -607,6 +670,8 @@ func gen(r *lib.RNG) caseT {
 				b.C = ip(int64(100 + r.Intn(50)))
 			case "not-null":
 				b.A = nil
+			case "signal":
+				b.C = ip(77) // the trigger body raises an error for this row
 			}
 			tuples[st.Bad-1] = b.sqlTuple()
 			st.WPK[st.Bad-1] = b.PK
@@ -633,6 +698,45 @@ func gen(r *lib.RNG) caseT {
 			st.Set, st.Val = "a", fmt.Sprint(r.Intn(3))
 		}
 		st.SQL = fmt.Sprintf("UPDATE t SET %s = %s WHERE %s", st.Set, st.Val, st.Where)
+	case k == 10:
+		// INSERT IGNORE (checkpointing iterator): duplicate rows are skipped with a warning
+		st.Kind = "insert-ignore"
+		m := r.Range(2, 4)
+		tuples := make([]string, m)
+		for i := 0; i < m; i++ {
+			row := genRow(r, int64(20+2*i))
+			switch r.Intn(4) {
+			case 0:
+				row.PK = lib.Pick(r, cs.Init).PK
+			case 1:
+				for _, x := range cs.Init {
+					if x.B != nil {
+						row.B = x.B
+					}
+				}
+			}
+			st.Rows = append(st.Rows, row)
+			tuples[i] = row.sqlTuple()
+		}
+		st.SQL = "INSERT IGNORE INTO t VALUES " + strings.Join(tuples, ", ")
+	case k == 11:
+		// INSERT ... ON DUPLICATE KEY UPDATE: the rejected insert is handled by the row iterator, an update follows
+		st.Kind = "odku"
+		m := r.Range(1, 3)
+		tuples := make([]string, m)
+		for i := 0; i < m; i++ {
+			row := genRow(r, int64(20+2*i))
+			if r.Bool() {
+				row.PK = lib.Pick(r, cs.Init).PK
+			}
+			st.Rows = append(st.Rows, row)
+			tuples[i] = row.sqlTuple()
+		}
+		st.Set, st.Val = "c", fmt.Sprint(r.Intn(60))
+		if r.Chance(1, 4) {
+			st.Val = fmt.Sprint(100 + r.Intn(50)) // the update violates the CHECK constraint
+		}
+		st.SQL = "INSERT INTO t VALUES " + strings.Join(tuples, ", ") + " ON DUPLICATE KEY UPDATE c = " + st.Val
 	case k < 9:
 		st.Kind = "delete"
 		st.Where = lib.Pick(r, []string{"a >= 0", "a = 1", "pk >= 2", "c < 30", "b >= 'c'"})
@@ -719,7 +823,10 @@ func runOne(c *lib.Ctx, cs caseT) (calls int64, applyCalls int64, failed bool) {
 			if i < len(cs.Stmt.WPK) {
 				pk = cs.Stmt.WPK[i] // the trigger sees the row as written in the statement
 			}
-			au[i] = lib.CoqStr(fmt.Sprint(pk))
+			au[i] = "(Some " + lib.CoqStr(fmt.Sprint(pk)) + ")"
+			if cs.Signal && cs.Stmt.Bad == i+1 && cs.Stmt.How == "signal" {
+				au[i] = "None" // the trigger body fails for this row
+			}
 		}
 		trig = fmt.Sprintf("(Some (%s, %s))", lib.CoqListOf(before.audit, lib.CoqStr), lib.CoqList(au))
 	}
@@ -728,7 +835,7 @@ func runOne(c *lib.Ctx, cs caseT) (calls int64, applyCalls int64, failed bool) {
 		afault = fmt.Sprintf("(Some %d%%nat)", cs.AK)
 	}
 	term := lib.CoqTuple(coqRowsT(before.rows), lib.CoqListOf(es, coqEdit), failAt, trig, lib.CoqBool(failed),
-		coqRowsT(after.rows), lib.CoqListOf(after.audit, lib.CoqStr), afault)
+		coqRowsT(after.rows), lib.CoqListOf(after.audit, lib.CoqStr), afault, lib.CoqBool(cs.Stmt.Kind == "insert-ignore"))
 	key := ""
 	if failed && len(before.rows) > 0 {
 		key = fmt.Sprintf("%v|%s|%d", texts(cs.Init), cs.Stmt.SQL, cs.K)
@@ -770,10 +877,20 @@ func runOne(c *lib.Ctx, cs caseT) (calls int64, applyCalls int64, failed bool) {
 		// a storage error inside ApplyEdits: classify by what is left behind
 		full := texts(applyEdits(before.rows, es))
 		sig := "apply-edits-failure-leaves-partial-edits"
-		if eqS(full, texts(after.rows)) && int64(cs.AK) == applyCalls {
+		if eqS(full, texts(after.rows)) {
+			// everything was applied and published by the StatementComplete calls; the failing call is a re-run at Close
 			sig = "apply-edits-error-at-close-reported-after-changes-published"
 		}
 		c.PredFail(id, sig, fmt.Sprintf("%q with a storage error in ApplyEdits call %d of %d reports %v, yet the rows went from %v to %v", cs.Stmt.SQL, cs.AK, applyCalls, res.Err, texts(before.rows), texts(after.rows)), cs)
+		return
+	}
+	if failed && cs.Stmt.Kind == "insert-ignore" && !eqS(texts(before.rows), texts(after.rows)) {
+		// every row of INSERT IGNORE is its own statement: a hard error keeps the rows accepted before it
+		sig := "failed-insert-ignore-changes-rows"
+		if cs.K > 0 && cs.K-1 <= len(es) && eqS(texts(applyEdits(before.rows, es[:cs.K-1])), texts(after.rows)) {
+			sig = "insert-ignore-storage-error-keeps-earlier-rows"
+		}
+		c.PredFail(id, sig, fmt.Sprintf("%q failed (%v, fault at row-edit call %d) but rows went from %v to %v", cs.Stmt.SQL, res.Err, cs.K, texts(before.rows), texts(after.rows)), cs)
 		return
 	}
 	if failed {
@@ -808,7 +925,12 @@ func runOne(c *lib.Ctx, cs caseT) (calls int64, applyCalls int64, failed bool) {
 	} else {
 		if natural {
 			c.PredFail(id, "invalid-statement-succeeds", fmt.Sprintf("%q should fail (%s) but succeeded; rows %v", cs.Stmt.SQL, cs.Stmt.How, texts(after.rows)), cs)
-		} else if want := texts(applyEdits(before.rows, es)); !eqS(want, texts(after.rows)) {
+		} else if want := texts(applyEdits(before.rows, es)); !eqS(want, texts(after.rows)) && cs.AK > 0 {
+			// StatementComplete returned nil although ApplyEdits failed: the statement goes on and succeeds without the
+			// edits that were pending (INSERT IGNORE: the next ignorable row clears the accumulator)
+			c.PredFail(id, "apply-edits-error-swallowed-by-statement-complete-loses-rows",
+				fmt.Sprintf("%q with a one-shot storage error in ApplyEdits call %d of %d SUCCEEDS; expected rows %v, found %v", cs.Stmt.SQL, cs.AK, applyCalls, want, texts(after.rows)), cs)
+		} else if !eqS(want, texts(after.rows)) {
 			c.PredFail(id, "successful-"+cs.Stmt.Kind+"-does-not-apply-all-changes", fmt.Sprintf("%q succeeded; expected rows %v, found %v", cs.Stmt.SQL, want, texts(after.rows)), cs)
 		}
 	}
@@ -819,7 +941,8 @@ func runOne(c *lib.Ctx, cs caseT) (calls int64, applyCalls int64, failed bool) {
 func runAll(c *lib.Ctx, cs caseT) {
 	cs.K, cs.AK = 0, 0
 	calls, applyCalls, failed := runOne(c, cs)
-	if !failed && !cs.Trigger && !cs.SelfRef && !cs.FT {
+	if !failed && !cs.Trigger && !cs.SelfRef && !cs.FT && cs.Stmt.Kind != "odku" {
+		// (ON DUPLICATE KEY UPDATE runs two editors over one accumulator: four ApplyEdits calls, not modelled)
 		// a one-shot storage error inside each ApplyEdits call the statement makes (StatementComplete, Close)
 		for n := int64(1); n <= applyCalls && n <= 4; n++ {
 			cs.AK = int(n)
@@ -866,6 +989,15 @@ func main() {
 			{Init: base, Stmt: stmtT{Kind: "insert", SQL: "INSERT INTO t VALUES (20, 1, 'x', 1), (21, 1, 'a', 2)",
 				Rows: []rowT{{PK: 20, A: ip(1), B: sp("x"), C: ip(1)}, {PK: 21, A: ip(1), B: sp("y"), C: ip(2)}}, Bad: 2, How: "dup-unique"}},
 			{Init: base, Stmt: stmtT{Kind: "update", SQL: "UPDATE t SET pk = 50 WHERE a >= 0", Set: "pk", Val: "50", Where: "a >= 0"}},
+			// known: INSERT IGNORE keeps the rows accepted before an (injected) storage error
+			{Init: base, Stmt: stmtT{Kind: "insert-ignore", SQL: "INSERT IGNORE INTO t VALUES (20, 1, NULL, 1), (1, 1, NULL, 2), (22, 1, NULL, 3)",
+				Rows: []rowT{{PK: 20, A: ip(1), C: ip(1)}, {PK: 1, A: ip(1), C: ip(2)}, {PK: 22, A: ip(1), C: ip(3)}}}},
+			// ON DUPLICATE KEY UPDATE whose update violates the CHECK constraint at the second row
+			{Init: base, Stmt: stmtT{Kind: "odku", SQL: "INSERT INTO t VALUES (20, 1, NULL, 1), (1, 1, NULL, 2) ON DUPLICATE KEY UPDATE c = 150",
+				Rows: []rowT{{PK: 20, A: ip(1), C: ip(1)}, {PK: 1, A: ip(1), C: ip(2)}}, Set: "c", Val: "150"}},
+			// the trigger body SIGNALs at row 2: the audit row of row 1 stays (same root cause as the first entry)
+			{Init: base, Trigger: true, Signal: true, Stmt: stmtT{Kind: "insert", SQL: "INSERT INTO t VALUES (20, 1, NULL, 1), (21, 1, NULL, 77), (22, 1, NULL, 3)",
+				Rows: []rowT{{PK: 20, A: ip(1), C: ip(1)}, {PK: 21, A: ip(1), C: ip(5)}, {PK: 22, A: ip(1), C: ip(3)}}, WPK: []int64{20, 21, 22}, Bad: 2, How: "signal"}},
 			// multi-row REPLACE failing with a non-duplicate error after the first edit call
 			{Init: base, Stmt: stmtT{Kind: "replace", SQL: "REPLACE INTO t VALUES (1, 2, NULL, 8), (2, 0, NULL, 150)",
 				Rows: []rowT{{PK: 1, A: ip(2), C: ip(8)}, {PK: 2, A: ip(0), C: ip(9)}}, Bad: 2, How: "check"}},
